@@ -13,6 +13,9 @@ TRACKER_NOTE = ("Trusted: TLC; the projection code in harness/l1 (maps concrete 
                 "exact equality with what the harness created); well-formedness premises of TrackerCore. "
                 "Exhaustive only within the constants recorded in the evidence file.")
 
+SSHD_NOTE = ("Trusted: TLC; the class generators and token substitution in harness/sshdvec; Go's encoding/json for "
+             "normalising events. Coverage is field classes x seeds (evidence: evaluations / distinct_nontrivial).")
+
 CHECKS = {
     "C01": dict(level="model_checking", ref="7/C01", technique="TLA+ spec (Tracker.tla) checked by TLC + TLC-generated histories replayed on the real tracker, recorded traces validated by TLC (TrackerTrace.tla)",
                 text="TLC proves IdentityOK on the design for all well-formed histories within small constants; every edge of the abstract state graph and long simulated histories are replayed on the real sessionTracker and TLC evaluates IdentityOK on every recorded step.",
@@ -32,6 +35,21 @@ CHECKS = {
     "C16": dict(level="model_checking", ref="7/C16", technique="TLA+ spec checked by TLC + trace validation of real executions with cut-offs between any two calls",
                 text="Cleanup semantics with cut-offs placed between any two arrivals: StaleDropped and ExactlyOnce (nothing younger/correlated is discarded) on design and on the real tracker.",
                 note=TRACKER_NOTE + " Real-time behaviour of the one-minute ticker is exercised only in the thorough tier."),
+    "C06": dict(level="exploration", ref="7/C06", technique="TLA+ grammar/contract (SshdLog.tla) enumerated by TLC; vectors replayed on the real sshd processor; observations validated by TLC (SshdTrace.tla)",
+                text="TLC enumerates every form x field-class combination with the exact expected event; each vector is concretised with seeded values, run through the real processor, and TLC compares the emitted event field by field. Exploration: classes x seeds, not all strings.",
+                note=SSHD_NOTE),
+    "C07": dict(level="exploration", ref="7/C07", technique="TLC-enumerated vectors delivered twice (direct / framed through the real syslog ingester and a real FIFO); TLC compares both observations",
+                text="Every vector (grammar, hostile, mutants, noise, pid tokens) is delivered directly and as '<pid><pad><msg>\\n' through SyslogIngester.Process; TLC requires identical observations and, for grammar vectors, the exact expectation.",
+                note=SSHD_NOTE),
+    "C11": dict(level="exploration", ref="7/C11", technique="TLC-enumerated mutation operators/noise classes over the sshd grammar; universal post-condition evaluated by TLC on recorded observations",
+                text="Mutants (truncation at every token, keyword changes, duplicated segments, splices), noise classes in every field position (NUL, invalid UTF-8, 20-70 kB) and odd PID tokens; TLC checks no panic/error, <=1 event, login only with a succeeded event, event only for keyword lines, fields are substrings.",
+                note=SSHD_NOTE + " Arbitrary byte strings are reached only through noise classes and mutations."),
+    "C17": dict(level="exploration", ref="7/C17", technique="TLC-enumerated hostile user-name classes x peer classes; recorded peer compared by TLC",
+                text="Hostile names (spaces, ' from <addr> port <n>' fragments, keywords, 100 chars, quotes) in the three forms printing a client-chosen name; TLC requires one failed event whose source address/port are the appended ones.",
+                note=SSHD_NOTE),
+    "C19": dict(level="exploration", ref="7/C19", technique="counter deltas from a private registry per vector, contract evaluated by TLC",
+                text="For every vector of C06/C11/C17 the counters of a private Prometheus registry are read after the line; TLC checks exactly one increment with matching outcome/method per emitted event and none for non-keyword lines.",
+                note=SSHD_NOTE),
 }
 
 ALL = ["C%02d" % i for i in range(1, 21)]
